@@ -831,6 +831,7 @@ func (ex *Ex) materialize(fr *Frame, st *State, cell int) *T {
 }
 
 func (w *World) fieldHeapKey(t types.Type, stt *types.Struct, i int) string {
+	t = deepUnalias(t)
 	return "H$" + mangle(w.shortType(t)) + "$" + stt.Field(i).Name()
 }
 
@@ -923,6 +924,11 @@ func (ex *Ex) globalGet(st *State, g *ssa.Global) *T {
 	t := g.Type().(*types.Pointer).Elem()
 	v := Var("G$"+mangle(ex.W.shortName(g)), ex.W.SortOf(t))
 	st.globals[g] = v
+	if g.Pkg != nil && !ex.W.InModule(g.Pkg.Pkg) && isIface(t) && t.String() == "error" {
+		// T15: exported sentinel errors of dependencies are non-nil values of comparable types
+		ex.note("T15: sentinel error " + g.String() + " is a non-nil value of a comparable type")
+		st.Assume(And(Not(IfaceIsNil(v)), App("comparable", SBool, Dyn(v))))
+	}
 	return v
 }
 
@@ -1440,6 +1446,7 @@ func (ex *Ex) typeInvFor(t types.Type) (*TypeInv, types.Type) {
 	if p, ok := t.Underlying().(*types.Pointer); ok {
 		t = p.Elem()
 	}
+	t = deepUnalias(t)
 	if ti, ok := ex.W.TypeInvs[t.String()]; ok {
 		return ti, t
 	}
